@@ -5,6 +5,7 @@
 
 use crate::conv::*;
 use crate::corpus::for_each_schema_type;
+use pcv_core::gen::{deep_case, DEEP_DEPTHS};
 use pcv_core::json::{hex, J};
 use pcv_core::mem::catch;
 use pcv_core::model::*;
@@ -122,6 +123,18 @@ pub fn run_c15(cfg: &Cfg) -> Report {
             let shape = gen_tree(t);
             c15_tree(t, &shape, "random tree");
         }
+        // deeply nested trees
+        let mut di = 0u64;
+        for kind in 0..7 {
+            for &depth in &DEEP_DEPTHS {
+                di += 1;
+                if t.mine(di) {
+                    let (shape, _) = deep_case(kind, depth);
+                    t.st.count("deep_trees");
+                    c15_tree(t, &shape, "deep tree");
+                }
+            }
+        }
         // schemas of the concrete corpus
         if t.tid == 0 {
             macro_rules! one {
@@ -154,6 +167,7 @@ pub fn run_c15(cfg: &Cfg) -> Report {
         rep.floor(k, 1);
     }
     rep.floor("decoded_back", 100);
+    rep.floor("deep_trees", 7);
     rep
 }
 
@@ -481,6 +495,53 @@ pub fn run_c16(cfg: &Cfg) -> Report {
             let path = gen_path(&mut t.rng);
             c16_tree(t, &shape, &path);
         }
+        let mut di = 0u64;
+        for kind in 0..7 {
+            for &depth in &DEEP_DEPTHS {
+                di += 1;
+                if t.mine(di) {
+                    let (shape, _) = deep_case(kind, depth);
+                    t.st.count("deep_trees");
+                    c16_tree(t, &shape, "deep/path");
+                    // sensitivity at the bottom of the tree: the innermost leaf differs
+                    let (s2, _) = deep_case(kind, depth);
+                    fn swap_leaf(s: &Shape) -> Shape {
+                        match s {
+                            Shape::U16 => Shape::U32,
+                            Shape::Option(a) => Shape::Option(Box::new(swap_leaf(a))),
+                            Shape::Seq(a) => Shape::Seq(Box::new(swap_leaf(a))),
+                            Shape::NewtypeStruct(n, a) => Shape::NewtypeStruct(n, Box::new(swap_leaf(a))),
+                            Shape::Map(k, v) => Shape::Map(k.clone(), Box::new(swap_leaf(v))),
+                            Shape::Struct(n, f) => Shape::Struct(n, f.iter().map(|(fnm, x)| (*fnm, swap_leaf(x))).collect()),
+                            Shape::Enum(n, vs) => Shape::Enum(
+                                n,
+                                vs.iter()
+                                    .map(|v| VariantShape {
+                                        name: v.name,
+                                        data: match &v.data {
+                                            VData::Newtype(a) => VData::Newtype(Box::new(swap_leaf(a))),
+                                            o => o.clone(),
+                                        },
+                                    })
+                                    .collect(),
+                            ),
+                            o => o.clone(),
+                        }
+                    }
+                    let m = swap_leaf(&s2);
+                    if let (Ok((a, b)), Ok((c, d))) = (keys_of("deep/path", &s2), keys_of("deep/path", &m)) {
+                        t.st.count("sensitivity_mutations");
+                        if a == c || b == d || c != d || c != reference_key("deep/path", &m) {
+                            t.st.violation(
+                                "C16:key-insensitive-to-change",
+                                format!("changing the innermost leaf of a {}-deep tree does not change the key consistently (const {} -> {}, owned {} -> {})", depth, hex(&a), hex(&c), hex(&b), hex(&d)),
+                                rp_tree("c16", &s2, vec![kv("path", "deep/path"), kv("mutation", "innermost leaf kind changed")]),
+                            );
+                        }
+                    }
+                }
+            }
+        }
         if t.tid == 0 {
             // corpus types: Key::for_path::<T> in a const item and at run time vs the owned hasher
             macro_rules! one {
@@ -518,6 +579,7 @@ pub fn run_c16(cfg: &Cfg) -> Report {
     rep.floor("sensitivity_mutations", 100);
     rep.floor("type_rename_checks", 20);
     rep.floor("corpus_keys", 10);
+    rep.floor("deep_trees", 7);
     for k in KINDS30 {
         rep.floor(k, 1);
     }
@@ -655,6 +717,17 @@ pub fn run_c19(cfg: &Cfg) -> Report {
                 }
             }
         }
+        let mut di = 0u64;
+        for kind in 0..7 {
+            for &depth in &DEEP_DEPTHS {
+                di += 1;
+                if t.mine(di) {
+                    let (shape, _) = deep_case(kind, depth);
+                    t.st.count("deep_trees");
+                    c19_tree(t, &shape_to_owned(&shape), "deep tree");
+                }
+            }
+        }
         if t.tid == 0 {
             macro_rules! one {
                 ($ty:ty) => {{
@@ -676,6 +749,7 @@ pub fn run_c19(cfg: &Cfg) -> Report {
     rep.floor("node_usize", 1);
     rep.floor("node_isize", 1);
     rep.floor("node_schema", 1);
+    rep.floor("deep_trees", 7);
     rep
 }
 
